@@ -21,10 +21,11 @@ RULE = (
     "(dim 1-3, value_dim 1-3, coordinates in a small box incl. negatives); after every step all stored coordinates are "
     "read back and compared with a dict. Non-trivial = at least 3 applied add batches or one rejected read; distinct = "
     "distinct sequence of (op kind, outcome, overlap class of the batch with stored coordinates, duplicates-in-batch flag)."
+    ' Since the second session: integer-typed batches and coordinates of several integer widths, additive contributions that cancel exactly, non-finite values, batches rejected for malformed value arrays, arguments reused and results kept/edited by the caller, another array used in between, printing, a few long histories over a larger box; drawn observation frequency.'
 )
 STATE_ABSTRACTION = "(number of stored coordinates capped at 12, overlap class of last batch in {none,partial,all}, duplicates in last batch, additive flag)"
 ASSUMPTIONS = [
-    "values are small integers stored as floats so additive sums are exact in any order (bitwise comparison is sound)",
+    "values are multiples of 1/4 below 2**24 (or integer-typed, or +-inf) so additive sums are exact in any order (bitwise comparison is sound)",
     "coordinates are integers, as the class documents",
 ]
 PROBES = ["observation_sparse", "observation_end", "printed_in_between", "non_finite_value", "long_history", "twin_instance_used_in_between", "rejected_malformed_values_all_new", "rejected_malformed_values", "coordinates_not_int64", "caller_mutates_arguments_after_add", "caller_mutates_returned_array", "integer_dtype_batch", "additive_cancels_to_zero", "dup_in_batch", "overlap_partial", "overlap_all", "overlap_unsorted_ge2", "batch_not_sorted", "additive_fresh_coordinate",
